@@ -1,10 +1,233 @@
 import Driver.Util
-open Lean Driver
+import Driver.Img
+import Driver.C04
+import Driver.C20
+import GinjaxVerif.Model.Layer
+open Lean Driver GinjaxVerif GinjaxVerif.C20 GinjaxVerif.Layer
 
+/-!
+Driver ops for the convolve-and-contract layer (C11, C06).
+
+`c11.layer`: evaluates the model `layerV` (as the composition `biasLoopV ∘ emitInTargetOrderV ∘
+individualConvolveV`, with array-backed copies of the intermediate blocks and of the filter blocks so
+that nothing is recomputed per access) and the spec `layerSpec` (`biasSpec` of the tabulated
+`convPartSpec`) on integer data.  Values are integers when no mean-scaled bias is involved, rationals
+(`mu = 1/|box|`) otherwise.
+
+`c11.init`: the constructor (`initShapes`).
+-/
 namespace Driver.C11
 
-def handle (op : String) (_j : Json) : R Json := do
+open Driver.C20 (asTy asSig asBias jTy jSig)
+
+section Generic
+variable {R : Type} [Zero R] [Add R] [Mul R] (ofInt : Int → R) (toJ : R → Json)
+
+def inBoxL {d : Nat} (dims : List Nat) (y : Pix d) : Bool :=
+  (fnToList y).zip dims |>.all (fun (v, s) => decide (0 ≤ v ∧ v < (s : Int)))
+
+def toIdx {d : Nat} (n : List Nat) : List (Fin d) :=
+  n.filterMap (fun a => if h : a < d then some (⟨a, h⟩ : Fin d) else none)
+
+/-- parse `{"shape":[c, spatial…, d…], "data":[…]}`; returns the block, its extents and its order -/
+def parseBlock (d : Nat) (j : Json) : Driver.R (Block R d × List Nat × Nat) := do
+  let shape ← listF asNat j "shape"
+  let data ← listF asInt j "data"
+  if shape.length < d + 1 then throw "block shape too short"
+  let spatial := (shape.drop 1).take d
+  let tens := shape.drop (1 + d)
+  if tens.any (· ≠ d) then throw "tensor axes must have extent d"
+  if data.length ≠ shape.foldl (· * ·) 1 then throw "data length does not match shape"
+  let arr : Array R := (data.map ofInt).toArray
+  let blk : Block R d :=
+    { chans := shape.getD 0 0
+      dims := listToFn d 0 spatial
+      val := fun c y n =>
+        if inBoxL spatial y then
+          arr.getD (ravelIdx shape ([c] ++ (fnToList y).map Int.toNat ++ n.map (·.val))) 0
+        else 0 }
+  pure (blk, spatial, tens.length)
+
+/-- values of a block of order `k` on its box, row-major `(chans, spatial…, tensor…)` -/
+def blockVals {d : Nat} (k : Nat) (b : Block R d) : List R :=
+  let dims := fnToList b.dims
+  let tens := List.replicate k d
+  (List.range b.chans).flatMap (fun c => (boxIdx dims).flatMap (fun y => (boxIdx tens).map (fun n =>
+    b.val c (listToFn d 0 (y.map Int.ofNat)) (toIdx n))))
+
+/-- array-backed copy of a block (the same values on its box, zero outside) -/
+def tabBlock {d : Nat} (k : Nat) (b : Block R d) : Block R d :=
+  let dims := fnToList b.dims
+  let shape := [b.chans] ++ dims ++ List.replicate k d
+  let arr := (blockVals k b).toArray
+  { chans := b.chans, dims := b.dims,
+    val := fun c y n =>
+      if inBoxL dims y then arr.getD (ravelIdx shape ([c] ++ (fnToList y).map Int.toNat ++ n.map (·.val))) 0
+      else 0 }
+
+structure TabFB (R : Type) (d : Nat) where
+  s : Ty
+  t : Ty
+  bank : Bank R d
+
+/-- array-backed copy of one filter block `(out_c, in_c, M…, tensor…)` -/
+def tabFB {d : Nat} (s t : Ty) (outC inC : Nat) (M : List Nat) (fb : Bank R d) : TabFB R d :=
+  let k := s.1 + t.1
+  let tens := List.replicate k d
+  let shape := [outC, inC] ++ M ++ tens
+  let arr := ((List.range outC).flatMap (fun o => (List.range inC).flatMap (fun c =>
+    (boxIdx M).flatMap (fun a => (boxIdx tens).map (fun n =>
+      fb o c (listToFn d 0 (a.map Int.ofNat)) (toIdx n)))))).toArray
+  { s := s, t := t,
+    bank := fun o c a n =>
+      if inBoxL M a then arr.getD (ravelIdx shape ([o, c] ++ (fnToList a).map Int.toNat ++ n.map (·.val))) 0
+      else 0 }
+
+def blockJson {d : Nat} (t : Ty) (b : Block R d) : Json :=
+  Json.mkObj [("key", jTy t),
+    ("block", Json.mkObj [("shape", jList jNat ([b.chans] ++ fnToList b.dims ++ List.replicate t.1 d)),
+                          ("data", jList toJ (blockVals t.1 b))])]
+
+def evalLayer {d : Nat} (P : Params R d) (x : MImg R d) (M : List Nat) : Json :=
+  -- array-backed filter blocks for every (input type, target type) pair
+  let tabs : List (TabFB R d) := x.flatMap (fun e => P.target.map (fun t =>
+    tabFB e.1 t.1 t.2 e.2.chans M (filterBlock P e.1 t.1)))
+  let fb : Ty → Ty → Bank R d := fun s t =>
+    match tabs.find? (fun tb => tb.s == s && tb.t == t) with
+    | some tb => tb.bank
+    | none => filterBlock P s t
+  -- the model of the code
+  let produced := (individualConvolveV (bankSig P) P.target P.ax fb x).map (fun e => (e.1, tabBlock e.1.1 e.2))
+  let emitted := emitInTargetOrderV P.target produced
+  let out := biasLoopV (normaliseBias P.mode) P.bias P.mu emitted
+  -- the spec
+  let specSig := convContractOut (bankSig P) (sigOf x) P.target
+  let spec : MImg R d := specSig.map (fun t =>
+    let conv := tabBlock t.1.1 { chans := t.2, dims := outDims P, val := convPartSpec P x t.1 }
+    (t.1, { chans := t.2, dims := outDims P,
+            val := biasSpec P.mode P.bias P.mu (outDims P) t.1 conv.val }))
+  Json.mkObj [("model", jList (fun e => blockJson toJ e.1 e.2) out),
+              ("spec", jList (fun e => blockJson toJ e.1 e.2) spec),
+              ("spec_sig", jSig specSig),
+              ("out_dims", jList jNat (fnToList (outDims P)))]
+
+def buildAndEval (d : Nat) (j : Json) (muOf : Nat → R) : Driver.R Json := do
+  let target ← field j "target_keys" >>= asSig
+  let declared ← field j "input_keys" >>= asSig
+  let mode ← field j "use_bias" >>= asBias
+  -- input blocks in dict order
+  let xs ← listF (fun e => do
+    let t ← field e "key" >>= asTy
+    let (b, sp, k) ← field e "block" >>= parseBlock (R := R) ofInt d
+    if k ≠ t.1 then throw "block order differs from its key"
+    pure (t, b, sp)) j "input"
+  let N ← match xs with
+    | [] => throw "empty input"
+    | e :: _ => pure e.2.2
+  if xs.any (fun e => e.2.2 ≠ N) then throw "blocks with different extents"
+  let x : MImg R d := xs.map (fun e => (e.1, e.2.1))
+  if (keysOf (sigOf x)).eraseDups.length != x.length then throw "bad-op: repeated key in the input"
+  -- bank in dict order
+  let bs ← listF (fun e => do
+    let t ← field e "key" >>= asTy
+    let (b, sp, k) ← field e "block" >>= parseBlock (R := R) ofInt d
+    if k ≠ t.1 then throw "filter order differs from its key"
+    pure (t, b, sp)) j "bank"
+  let M ← match bs with
+    | [] => throw "empty bank"
+    | e :: _ => pure e.2.2
+  if bs.any (fun e => e.2.2 ≠ M) then throw "filters with different extents"
+  let bank : MImg R d := bs.map (fun e => (e.1, e.2.1))
+  -- weights[s][t] : (out_c, in_c, n_filters)
+  let ws ← listF (fun e => do
+    let s ← field e "s" >>= asTy
+    let t ← field e "t" >>= asTy
+    let w ← field e "w"
+    let shape ← listF asNat w "shape"
+    let data ← listF asInt w "data"
+    if shape.length ≠ 3 ∨ data.length ≠ shape.foldl (· * ·) 1 then throw "bad weight block"
+    pure (s, t, shape, (data.map ofInt).toArray)) j "weights"
+  let weights : Ty → Ty → Nat → Nat → Nat → R := fun s t o c f =>
+    match ws.find? (fun e => e.1 == s && e.2.1 == t) with
+    | some e => e.2.2.2.getD (ravelIdx e.2.2.1 [o, c, f]) 0
+    | none => 0
+  let bl ← listF (fun e => do
+    let t ← field e "t" >>= asTy
+    let data ← listF asInt e "data"
+    pure (t, (data.map ofInt).toArray)) j "bias"
+  let bias : Ty → Nat → R := fun t o =>
+    match bl.find? (fun e => e.1 == t) with
+    | some e => e.2.getD o 0
+    | none => 0
+  -- per-axis options from the padding dispatch of `convolve_ravel`
+  let pmode ← (match optField j "padding" with | none => pure PadMode.none | some v => Driver.C04.parseMode v)
+  let torus ← listF asBool j "torus"
+  let stride ← listF asNat j "stride"
+  let rd ← listF asNat j "rd"
+  let ld ← listF asNat j "ld"
+  if torus.length ≠ d ∨ stride.length ≠ d ∨ rd.length ≠ d ∨ ld.length ≠ d then throw "per-axis options must have length d"
+  if !(d == 2 || d == 3) then throw "D must be 2 or 3"
+  match dispatch pmode (listToFn d false torus) (listToFn d 0 N) (listToFn d 0 M)
+      (listToFn d 1 stride) (listToFn d 1 rd) (listToFn d 1 ld) with
+  | none => throw "rejected by the padding dispatch"
+  | some ax =>
+    let boxSize := (fnToList (fun j => (ax j).outLen)).foldl (· * ·) 1
+    let P : Params R d := { target := target, bank := bank, weights := weights, bias := bias,
+                            mode := mode, ax := ax, mu := muOf boxSize }
+    if !(accepts P declared x) then throw "rejected: undeclared input key or channel mismatch"
+    -- shape conformance of the supplied weights with the constructor: a weight block of the wrong
+    -- shape cannot be evaluated (rejected); a weight block that is absent is read as zero and reported
+    let bankN := bank.map (fun e => (e.1, e.2.chans))
+    let sh := initShapes declared target bankN mode
+    let mut conform := true
+    for e in x do
+      match Layer.lookup sh.weights e.1 with
+      | none => throw "rejected: no weights for an input key"
+      | some wts =>
+        for w in wts do
+          match ws.find? (fun u => u.1 == e.1 && u.2.1 == w.1) with
+          | none => conform := false
+          | some u =>
+            if u.2.2.1 ≠ [w.2.1, w.2.2.1, w.2.2.2] then throw "weight shape differs from (out_c,in_c,n_filters)"
+    let out := evalLayer toJ P x M
+    pure (out.setObjVal! "weights_conform" (jBool conform))
+
+end Generic
+
+def jShapes (sh : Shapes) : Json :=
+  Json.mkObj [
+    ("weights", jList (fun e => Json.mkObj [("s", jTy e.1),
+      ("entries", jList (fun w => Json.mkObj [("t", jTy w.1), ("shape", jList jNat [w.2.1, w.2.2.1, w.2.2.2])]) e.2)])
+      sh.weights),
+    ("bias", jList (fun e => Json.mkObj [("t", jTy e.1), ("out_c", jNat e.2)]) sh.bias),
+    ("missing_filter", jBool sh.missing),
+    ("use_bias", match sh.mode with
+      | .auto => jStr "auto" | .mean => jStr "mean" | .scalar => jStr "scalar"
+      | .true_ => jBool true | .false_ => jBool false)]
+
+def handle (op : String) (j : Json) : Driver.R Json := do
   match op with
+  | "c11.layer" =>
+    let d ← natF j "d"
+    let target ← field j "target_keys" >>= asSig
+    let mode ← field j "use_bias" >>= asBias
+    let meanBranch := mode == .mean ||
+      ((mode == .auto || mode == .true_) && target.any (fun t => t.1 != (0, 0)))
+    if !meanBranch then
+      -- no mean-scaled branch can be taken: `mu` is irrelevant, integers suffice
+      buildAndEval (R := Int) (fun i => i) jInt d j (fun _ => 0)
+    else
+      -- `jnp.mean` over the spatial axes: mu = 1 / |output box|
+      buildAndEval (R := Rat) (fun i => (i : Rat)) jRat d j (fun n => mkRat 1 n)
+  | "c11.init" =>
+    let declared ← field j "input_keys" >>= asSig
+    let target ← field j "target_keys" >>= asSig
+    let mode ← field j "use_bias" >>= asBias
+    let bankN ← listF (fun e => do
+      let t ← field e "key" >>= asTy
+      let n ← natF e "n"
+      pure (t, n)) j "bank"
+    pure (jShapes (initShapes declared target bankN mode))
   | _ => throw s!"unknown op {op}"
 
 end Driver.C11
